@@ -14,13 +14,13 @@ import (
 )
 
 type writeMonitor struct {
-	i       *interpreter
-	cells   map[*value]string            // frozen cells -> description of the root
-	maps    map[interface{}]string       // frozen maps (map[value]value pointer identity via reflect) -> root
-	hmaps   map[*hashmap]string
-	slices  map[*value]string            // first element address of frozen backing arrays
-	recs    map[string]int
-	enabled bool
+	i        *interpreter
+	cells    map[*value]string      // frozen cells -> description of the root
+	maps     map[interface{}]string // frozen maps (map[value]value pointer identity via reflect) -> root
+	hmaps    map[*hashmap]string
+	slices   map[*value]string // first element address of frozen backing arrays
+	recs     map[string]int
+	enabled  bool
 	allowKey func(root string, key value) bool
 }
 
